@@ -4,7 +4,7 @@
     the implementation by every run of the check. *)
 From Coq Require Import String Ascii List Bool Arith NArith ZArith.
 From Raven Require Import Base.GoStr Model.Search Model.SearchText Spec.Search Model.SearchClass.
-From Raven Require Spec.SeqSet.
+From Raven Require Spec.SeqSet Model.CmdTokenizer.
 Import ListNotations.
 Local Open Scope Z_scope.
 
@@ -23,9 +23,9 @@ Definition sone (n : Z) : Spec.SeqSet.item := Spec.SeqSet.One (Spec.SeqSet.Num n
 Definition srange (a b : Z) : Spec.SeqSet.item := Spec.SeqSet.Range (Spec.SeqSet.Num a) (Spec.SeqSet.Num b).
 Definition t_ : str := S_ "t".
 Definition search_line (ks : list key) (mb : list smsg) : reply :=
-  search_cmd (t_ :: S_ "SEARCH" :: fields (print_prog ks)) (to_msgs mb).
+  search_cmd (t_ :: S_ "SEARCH" :: Model.CmdTokenizer.split_command_line (print_prog ks)) (to_msgs mb).
 Definition uid_search_line (ks : list key) (mb : list smsg) : reply :=
-  uid_search_cmd (t_ :: S_ "UID" :: S_ "SEARCH" :: fields (print_prog ks)) (to_msgs mb).
+  uid_search_cmd (t_ :: S_ "UID" :: S_ "SEARCH" :: Model.CmdTokenizer.split_command_line (print_prog ks)) (to_msgs mb).
 
 (** a well-formed program of class [c] whose SEARCH reply violates the specification *)
 Definition refutes (c : cls) (ks : list key) (mb : list smsg) : Prop :=
@@ -81,16 +81,18 @@ Lemma text_keys_repaired :
   /\ field_values fold_msg (S_ "subject") = [S_ " first  second   line"]
   /\ sent_date fold_msg = Some (2006, 1, 3).
 Proof. vm_compute. repeat split; reflexivity. Qed.
-(** what remains of the sent-date keys: net/mail.ParseDate separates the parts of a
-    date by SPACE only; a Date: field folded with a horizontal tab (RFC 5322 FWS) has no
-    sent date for raven *)
+(** regression (fix "a Date: field folded with a tab" and tokenizer fix 2599345):
+    a Date: field folded with a horizontal tab has its sent date; runs of blanks and
+    tabs inside a quoted search string reach the evaluator unchanged, also inside a
+    parenthesised list *)
 Definition tab_mb : list smsg :=
   [ mk_smsg 1 [] (S_ "Date: Mon, 02 Jan 2006" ++ nl ++ [tab] ++ S_ "15:04:05 +0000" ++ nl ++ nl ++ S_ "x" ++ nl) (2026, 10, 1) ].
-Lemma refuted_sent_date_tab : refutes CSentDateTab [KDate true COn (S_ "2", 1, S_ "2006")] tab_mb
-  /\ sent_date (s_text (hd (mk_smsg 0 [] [] (0,0,0)) tab_mb)) = Some (2006, 1, 2).
+Lemma line_repaired :
+  search_line [KDate true COn (S_ "2", 1, S_ "2006")] tab_mb = ROk [1]
+  /\ search_line [KHdr HSubject (S_ "Hello  World")] wit_mb = ROk [1]
+  /\ search_line [KGroup [KHdr HSubject (S_ "Hello  World"); KNot (KText ([tab] ++ S_ " x"))]] wit_mb = ROk [1]
+  /\ Model.CmdTokenizer.split_command_line (print_prog [KGroup [KHdr HSubject (S_ "a  b")]]) = [S_ "(SUBJECT"; S_ """a  b"")"].
 Proof. vm_compute. repeat split; reflexivity. Qed.
-Lemma refuted_quoted_space : exists ks mb, refutes CQuotedSpace ks mb.
-Proof. witness [KHdr HSubject (S_ "Hello  World")]. Qed.
 (** regression (fix "UID SEARCH runs the SEARCH evaluator"): uid.handleUIDSearch
     was a separate implementation that evaluated only ALL and the first UID a:b
     (UID SEARCH UNSEEN returned every UID, UID SEARCH UID 2 nothing); the former
@@ -109,7 +111,7 @@ Proof. vm_compute. repeat split; reflexivity. Qed.
     evaluator now answers "no match" for every message, and no input makes it panic *)
 Lemma or_panic_repaired :
   search (to_msgs wit_mb) (S_ "OR FROM x") = Some []
-  /\ search_cmd (t_ :: S_ "SEARCH" :: fields (S_ "OR FROM x")) (to_msgs wit_mb) = ROk [].
+  /\ search_cmd (t_ :: S_ "SEARCH" :: Model.CmdTokenizer.split_command_line (S_ "OR FROM x")) (to_msgs wit_mb) = ROk [].
 Proof. vm_compute. split; reflexivity. Qed.
 
 (** regression (seeded change C19-1): the SENT* keys use the calendar date AS
